@@ -483,3 +483,51 @@ def d5_9(ctx):
     for k, m in used.items():
         ok = any(isinstance(n, ast.Subscript) and isinstance(n.slice, ast.Constant) and n.slice.value == k for n in walk(lx.methods[m]))
         ctx.check(ok, ckey(f"{lx.key}.{m}", f"uses:{k}"), lx.methods[m], f"{m} reads '{k}'", f"{m} no longer reads template['{k}']")
+
+
+@rule(P, "D5.10", "T-WITNESS", floor=3)
+def d5_10(ctx):
+    """Scope prefixes (Program:, Routine:, Task:) are removed as a prefix: under `name.startswith(P)` every string derived
+    from the name by a call or slice is folded on witness names P + w whose w begins with characters of P itself
+    (`Program:Pump`, `Routine:Reset`, `Task:TaskFast`) and must be exactly w."""
+    lx = _lx(ctx)
+    fn = lx.methods["_isolate_user_tags"]
+    n_sites = 0
+    for iff in walk(fn):
+        if not (isinstance(iff, ast.If) and isinstance(iff.test, ast.Call) and isinstance(iff.test.func, ast.Attribute) and iff.test.func.attr == "startswith" and len(iff.test.args) == 1):
+            continue
+        prefix = ctx.folder.eval(iff.test.args[0], lx.module)
+        var = atom_name(iff.test.func.value)
+        if not isinstance(prefix, str) or not prefix.endswith(":") or not isinstance(iff.test.func.value, ast.Name):
+            continue
+        stem = prefix[:-1]
+        suffixes = [stem + "1", stem[0] + "ump_Ctrl", stem[::-1], "Main" + stem, stem[-1] * 2 + "x", "x_" + stem]  # names are [A-Za-z0-9_]+
+        # expressions applied directly to the name: method calls on it, slices of it, and (one level up) subscripts / calls
+        # of those, e.g. name.split(":", 1)[1]
+        direct = [e for s_ in iff.body for e in walk(s_) if (isinstance(e, ast.Call) and isinstance(e.func, ast.Attribute) and atom_name(e.func.value) == var) or (isinstance(e, ast.Subscript) and atom_name(e.value) == var)]
+        derived = []
+        for e in direct:
+            top = e
+            while True:
+                p_ = getattr(top, "_parent", None)
+                if isinstance(p_, ast.Subscript) and p_.value is top:
+                    top = p_
+                elif isinstance(p_, ast.Attribute) and isinstance(getattr(p_, "_parent", None), ast.Call) and p_._parent.func is p_ and p_.value is top:
+                    top = p_._parent
+                else:
+                    break
+            derived.append(top)
+        for e in derived:
+            if isinstance(e, ast.Call) and attr_path(e.func) and "log" in attr_path(e.func).lower():
+                continue
+            vals = {}
+            for w in suffixes:
+                vals[w] = ctx.folder.eval(e, lx.module, env={var: prefix + w})
+            if all(v is UNKNOWN or not isinstance(v, str) for v in vals.values()):
+                continue  # not a string derived from the name (e.g. a table look-up keyed by something else)
+            n_sites += 1
+            bad = {prefix + w: v for w, v in vals.items() if v != w}
+            ctx.check(not bad, ckey(lx.key + "._isolate_user_tags", f"strip:{prefix}{'' if n_sites == 1 else ''}#{src(e)[:40]}"), e, f"`{src(e)}` yields the name without the `{prefix}` prefix for every witness",
+                      f"`{src(e)}` does not remove exactly the `{prefix}` prefix: {dict(list(bad.items())[:3])} (program / routine / task names beginning with characters of the prefix are mangled; their tags are then requested under a scope that does not exist)", prefix=prefix)
+    if n_sites < 3:
+        ctx.undecided(ckey(lx.key + "._isolate_user_tags", "strip"), fn, f"only {n_sites} prefix-stripping expressions found under startswith guards")
